@@ -20,7 +20,7 @@ from harness.c12 import (par_batch, Toks, UnknownOp, tok_pt, tok_cmds, tok_tree,
 
 PROPERTY = "C13"
 DRIVERS = ["drv_c13"]
-PROPS_MODULES = ["Buidl.Props.C13", "Buidl.Props.C13Compose"]
+PROPS_MODULES = ["Buidl.Props.C13", "Buidl.Props.C13Compose", "Buidl.Props.C13ComposeEC"]
 ANCHORS = [
     ("buidl/taproot.py", "MultiSigTapScript.__init__"), ("buidl/taproot.py", "MuSigTapScript.__init__"),
     ("buidl/taproot.py", "MuSigTapScript.generate_nonces"), ("buidl/taproot.py", "MuSigTapScript.nonce_sums"),
